@@ -315,6 +315,71 @@ func runC15(c *Ctx) {
 			}
 		}
 	}
+	// several columns of the same codec written through ONE writer before a single Flush (the columns of a block; the same
+	// column written twice): what is flushed is the concatenation of their encodings, whatever scratch memory a
+	// WriteColumn may use between the calls
+	for _, cd := range c15Codecs {
+		for _, shape := range [][]int{{3, 3, 3}, {5, 2, 4}, {1, 1}, {4, 4}} {
+			var colsM []proto.Column
+			var want []byte
+			okBuild := true
+			for _, rows := range shape {
+				wire := r.Bytes(rows * cd.w)
+				if cd.name == "Bool" {
+					for j := range wire {
+						wire[j] &= 1
+					}
+				}
+				col := cd.mk()
+				if col.DecodeColumn(proto.NewReader(bytes.NewReader(wire)), rows) != nil {
+					okBuild = false
+					break
+				}
+				colsM = append(colsM, col)
+				want = append(want, wire...)
+			}
+			if !okBuild {
+				continue
+			}
+			if len(shape) == 2 && shape[0] == 4 {
+				// the same column object twice
+				colsM[1] = colsM[0]
+				want = append(append([]byte(nil), want[:4*cd.w]...), want[:4*cd.w]...)
+			}
+			for _, withPrefix := range []bool{false, true} {
+				sink := &c14Sink{}
+				wr := proto.NewWriter(sink, new(proto.Buffer))
+				exp := append([]byte(nil), want...)
+				if withPrefix {
+					wr.ChainBuffer(func(bb *proto.Buffer) { bb.Buf = append(bb.Buf, 0xAB, 0xCD) })
+					exp = append([]byte{0xAB, 0xCD}, want...)
+				}
+				var o c15Out
+				oerr := ""
+				if p, msg := safely(func() {
+					for _, col := range colsM {
+						col.WriteColumn(wr)
+					}
+				}); p {
+					o.add("multi-write:panic")
+					oerr = "WriteColumn panicked: " + msg
+				} else {
+					_, ferr := wr.Flush()
+					o.add("multi-write:%s err=%v", hx(sink.got), ferr != nil)
+					if !bytes.Equal(sink.got, exp) {
+						oerr = fmt.Sprintf("%d columns written before one Flush: the flushed bytes are not the concatenation of the columns' encodings: %s", len(colsM), diffHex(hx(exp), hx(sink.got)))
+					}
+				}
+				id := fmt.Sprintf("%s/multi/%v/prefix=%v", cd.name, shape, withPrefix)
+				emit(id, o, fmt.Sprintf("codec=%s columns=%v one flush", cd.name, shape))
+				R.Case(id+"|"+hx(want), true)
+				R.Count("shape:multi-column-one-flush")
+				if oerr != "" {
+					R.Violate(Violation{Kind: "oracle", Key: "codec-oracle:" + cd.name, What: "[" + build + " build] " + oerr, Case: map[string]any{"codec": cd.name, "shape": fmt.Sprint(shape), "prefix": withPrefix, "build": build, "transcript": o.lines}})
+				}
+			}
+		}
+	}
 	// a zero-row decode that follows another read on the same Reader (as the elements of an Array whose arrays are all empty)
 	for _, cd := range c15Codecs {
 		wire := r.Bytes(cd.w * 3)
